@@ -500,3 +500,431 @@ Proof.
     destruct code; [inversion H; subst; auto| |];
       destruct (on_reopen_failed pol (prev + 1) w) as [reopen w']; inversion H; subst; auto.
 Qed.
+
+(** ** generations are independent *)
+
+Lemma generations_independent pol s g a s' o :
+  step Fixed pol s (ELoop g a) = Some (s', o) ->
+  (forall i, i <> g -> sig s' i = sig s i /\ pub s' i = pub s i /\ loops s' i = wake (loops s i) \/
+                       sig s' i = sig s i /\ pub s' i = pub s i /\ loops s' i = loops s i)
+  /\ (is_open s' <> is_open s -> g = gen s)
+  /\ gen s' = gen s.
+Proof.
+  intros H. cbn [step] in H.
+  destruct (loops s g) as [|buf|c|c l|] eqn:Hl; try discriminate.
+  - destruct (a =? 0); [|discriminate]. cbn [sigidx] in H.
+    destruct (sig s g); inversion H; subst; cbn [set_loop set_sig sig pub loops is_open gen].
+    + repeat split; auto; try contradiction. intros i Hi. right. rewrite !upd_other by exact Hi. auto.
+    + repeat split; auto; try contradiction. intros i Hi. right. rewrite !upd_other by exact Hi. auto.
+  - destruct (close_step Fixed (Some g) c a s) as [[[s1 code] p]|] eqn:Hc; [|discriminate]. inversion H; subst.
+    apply close_step_cases in Hc.
+    destruct Hc as [(_&->&_)|(Ho&Hst&_&[(_&->&_)|(_&->&_)])];
+      cbn [set_loop closed_state sig pub loops is_open gen sigidx].
+    + repeat split; auto; try contradiction. intros i Hi. right. rewrite !upd_other by exact Hi. auto.
+    + repeat split; auto; try contradiction. intros i Hi. right. rewrite !upd_other by exact Hi. auto.
+    + cbn [stale] in Hst. apply negb_false_iff, Nat.eqb_eq in Hst. subst g.
+      repeat split; auto. intros i Hi. left. rewrite !upd_other by exact Hi. auto.
+Qed.
+
+(** ** while the transport is open a read loop is alive (when the underlying Close does not fail
+    under a read loop) *)
+
+Definition live (l : lstate) : Prop :=
+  match l with LReading _ | LSawErr _ | LAtClose _ _ => True | _ => False end.
+
+Definition live_inv (s : st) : Prop := is_open s = true -> live (loops s (gen s)).
+
+Lemma live_step pol s e s' o :
+  inv s -> loop_close_ok e = true ->
+  step Fixed pol s e = Some (s', o) -> live_inv s -> live_inv s'.
+Proof.
+  intros Hi Hok H Hlive.
+  assert (Hopen : forall a s1 code, open_step Fixed a s = Some (s1, code) -> live_inv s1).
+  { intros a s1 code Ho. apply open_step_cases in Ho.
+    destruct Ho as [(_&_&->&_)|[(Hc&->&_)|(_&_&_&->&_)]]; auto.
+    intros _. cbn [opened loops gen]. rewrite upd_same. exact I. }
+  assert (Hset : forall g l, (g = gen s -> is_open s = true -> live l) -> live_inv (set_loop s g l)).
+  { intros g l Hl Ho. cbn [set_loop loops gen is_open] in *. unfold upd.
+    destruct (Nat.eqb (gen s) g) eqn:E; [apply Nat.eqb_eq in E; auto | auto]. }
+  destruct e; cbn [step] in H.
+  - destruct (open_step Fixed a s) as [[s1 code]|] eqn:Ho; [|discriminate]. inversion H; subst. eauto.
+  - destruct (close_step Fixed None 0 a s) as [[[s1 code] p]|] eqn:Hc; [|discriminate]. inversion H; subst.
+    apply close_step_cases in Hc.
+    destruct Hc as [(_&->&_)|(Ho&_&_&[(_&->&_)|(_&->&_)])]; auto.
+    intros Hx. discriminate.
+  - inversion H; subst. auto.
+  - destruct (loops s g) as [|buf| | |]; try discriminate.
+    destruct (drain_buf (buf ++ b)) as [[ex rest] [| |]]; inversion H; subst; apply Hset; intros; exact I.
+  - destruct (loops s g) as [|buf| | |]; try discriminate. inversion H; subst. apply Hset; intros; exact I.
+  - destruct (loops s g) as [|buf|c|c l|] eqn:Hl; try discriminate.
+    + destruct (a =? 0); [|discriminate]. cbn [sigidx] in H.
+      destruct (sig s g) eqn:Hsg; inversion H; subst.
+      * intros Ho. cbn [set_loop set_sig loops gen is_open] in *.
+        unfold upd. destruct (Nat.eqb (gen s) g) eqn:E; [|auto].
+        apply Nat.eqb_eq in E. subst g. rewrite (i_sig _ Hi Ho) in Hsg. discriminate.
+      * apply Hset; intros; exact I.
+    + destruct (close_step Fixed (Some g) c a s) as [[[s1 code] p]|] eqn:Hc; [|discriminate]. inversion H; subst.
+      apply close_step_cases in Hc.
+      destruct Hc as [(_&->&_&_&Hx)|(Ho&Hst&_&[(->&->&_)|(_&->&_)])].
+      * intros Ho. cbn [set_loop loops gen is_open] in *. unfold upd.
+        destruct (Nat.eqb (gen s) g) eqn:E; [|auto].
+        apply Nat.eqb_eq in E. subst g. destruct Hx as [Hx|Hx]; [congruence|].
+        cbn [stale] in Hx. rewrite Nat.eqb_refl in Hx. discriminate.
+      * cbn in Hok. discriminate.
+      * intros Hx. discriminate.
+  - destruct (mon_set s); [|discriminate].
+    destruct (mon s); try discriminate. destruct (mon_sig s) as [c|]; [|discriminate].
+    destruct (c =? 0); [inversion H; subst; auto|].
+    destruct (on_closed_uncleanly pol) as [reopen w]. inversion H; subst. auto.
+  - destruct (mon_set s); [|discriminate].
+    destruct (mon s) as [|prev w|]; try discriminate.
+    destruct (open_step Fixed a s) as [[s1 code]|] eqn:Ho; [|discriminate].
+    pose proof (Hopen _ _ _ Ho) as Hp.
+    destruct code; [inversion H; subst; auto| |];
+      destruct (on_reopen_failed pol (prev + 1) w) as [reopen w']; inversion H; subst; auto.
+Qed.
+
+Lemma live_reader pol m p tr s :
+  Forall (fun e => loop_close_ok e = true) tr ->
+  run Fixed pol (init m p) tr = Some s ->
+  is_open s = true -> live (loops s (gen s)).
+Proof.
+  assert (G : forall tr s0 s1, Forall (fun e => loop_close_ok e = true) tr ->
+             run Fixed pol s0 tr = Some s1 -> inv s0 -> live_inv s0 -> live_inv s1).
+  { induction tr0 as [|e tr0 IH]; cbn [run]; intros s0 s1 Hall H Hi Hl.
+    - inversion H; subst; auto.
+    - inversion Hall; subst.
+      destruct (step Fixed pol s0 e) as [[s2 o]|] eqn:Hs; [|discriminate].
+      eapply IH; eauto using step_inv, live_step. }
+  intros Hall H. eapply G; eauto using inv_init. intros Hx. discriminate.
+Qed.
+
+Lemma generations_independent' pol s g a s' o :
+  step Fixed pol s (ELoop g a) = Some (s', o) ->
+  (forall i, i <> g -> sig s' i = sig s i /\ pub s' i = pub s i)
+  /\ (is_open s' <> is_open s -> g = gen s)
+  /\ gen s' = gen s.
+Proof.
+  intros H. destruct (generations_independent _ _ _ _ _ _ H) as (H1 & H2 & H3).
+  repeat split; auto; destruct (H1 i H0) as [(?&?&?)|(?&?&?)]; auto.
+Qed.
+
+(** ** the monitor: attempts and waits *)
+
+(** the runner's state changes only in its own steps *)
+Lemma mon_unchanged pol s e s' o :
+  step Fixed pol s e = Some (s', o) ->
+  match e with EMonRecv | EMon _ => True | _ => mon s' = mon s /\ mon_set s' = mon_set s end.
+Proof.
+  intros H. destruct e; cbn [step] in H; auto.
+  - destruct (open_step Fixed a s) as [[s1 code]|] eqn:Ho; [|discriminate]. inversion H; subst.
+    apply open_step_cases in Ho. destruct Ho as [(_&_&->&_)|[(Hc&->&_)|(_&_&_&->&_)]]; auto.
+  - destruct (close_step Fixed None 0 a s) as [[[s1 code] p]|] eqn:Hc; [|discriminate]. inversion H; subst.
+    apply close_step_cases in Hc.
+    destruct Hc as [(_&->&_)|(Ho&_&_&[(_&->&_)|(_&->&_)])]; auto.
+  - inversion H; subst. auto.
+  - destruct (loops s g) as [|buf| | |]; try discriminate.
+    destruct (drain_buf (buf ++ b)) as [[ex rest] [| |]]; inversion H; subst; auto.
+  - destruct (loops s g) as [|buf| | |]; try discriminate. inversion H; subst. auto.
+  - destruct (loops s g) as [|buf|c|c l|] eqn:Hl; try discriminate.
+    + destruct (a =? 0); [|discriminate]. destruct (sig s (sigidx Fixed g)); inversion H; subst; auto.
+    + destruct (close_step Fixed (Some g) c a s) as [[[s1 code] p]|] eqn:Hc; [|discriminate]. inversion H; subst.
+      apply close_step_cases in Hc.
+      destruct Hc as [(_&->&_)|(Ho&_&_&[(_&->&_)|(_&->&_)])]; auto.
+Qed.
+
+Definition wait_of (pol : policy) (prev : Z) : Z :=
+  if prev =? 0 then p_init pol else Z.min (2 ^ prev * p_init pol) (p_maxw pol).
+
+Definition mon_inv (pol : policy) (s : st) : Prop :=
+  forall prev w, mon s = MWait prev w ->
+    0 <= prev < p_max pol
+    /\ (prev = 0 -> w = p_init pol)
+    /\ (0 < prev -> w <= p_maxw pol)
+    /\ (0 <= p_init pol -> 0 <= p_maxw pol -> w = wait_of pol prev).
+
+Lemma wait_of_next pol prev :
+  0 <= prev -> 0 <= p_init pol -> 0 <= p_maxw pol ->
+  Z.min (2 * wait_of pol prev) (p_maxw pol) = wait_of pol (prev + 1).
+Proof.
+  intros Hp Hi Hm. unfold wait_of.
+  destruct (prev + 1 =? 0) eqn:E1; [apply Z.eqb_eq in E1; lia|].
+  replace (2 ^ (prev + 1)) with (2 * 2 ^ prev) by (rewrite Z.pow_add_r by lia; lia).
+  destruct (prev =? 0) eqn:E0.
+  - apply Z.eqb_eq in E0. subst prev. cbn. lia.
+  - assert (0 <= 2 ^ prev * p_init pol) by (apply Z.mul_nonneg_nonneg; [apply Z.pow_nonneg; lia | lia]).
+    lia.
+Qed.
+
+Lemma mon_inv_step pol s e s' o :
+  step Fixed pol s e = Some (s', o) -> mon_inv pol s -> mon_inv pol s'.
+Proof.
+  intros H Hm. pose proof (mon_unchanged _ _ _ _ _ H) as Hu.
+  destruct e; try (destruct Hu as [Hu _]; unfold mon_inv; rewrite Hu; exact Hm); cbn [step] in H.
+  - destruct (mon_set s); [|discriminate].
+    destruct (mon s) eqn:Em; try discriminate. destruct (mon_sig s) as [c|]; [|discriminate].
+    destruct (c =? 0).
+    + inversion H; subst. intros prev w Hx. discriminate.
+    + unfold on_closed_uncleanly in H. inversion H; subst. intros prev w Hx. cbn [set_mon mon] in Hx.
+      destruct (0 <? p_max pol) eqn:E; [|discriminate]. apply Z.ltb_lt in E. inversion Hx; subst.
+      repeat split; auto; try lia.
+  - destruct (mon_set s); [|discriminate].
+    destruct (mon s) as [|prev w|] eqn:Em; try discriminate.
+    destruct (Hm _ _ Em) as (Hp & H0 & Hle & Hcf).
+    destruct (open_step Fixed a s) as [[s1 code]|] eqn:Ho; [|discriminate].
+    assert (Hfail : forall s2 o2,
+              (let '(reopen, w') := on_reopen_failed pol (prev + 1) w in
+               Some (set_mon s1 (mon_sig s1) (if reopen then MWait (prev + 1) w' else MDone) (handled s1),
+                     [3; prev + 1; w; b2z reopen; w'])) = Some (s2, o2) -> mon_inv pol s2).
+    { intros s2 o2 Hx. unfold on_reopen_failed in Hx.
+      destruct (p_max pol <=? prev + 1) eqn:E; inversion Hx; subst; intros pr w2 Hy; cbn [set_mon mon] in Hy; [discriminate|].
+      apply Z.leb_gt in E. inversion Hy; subst. repeat split; try lia.
+      intros Hi0 Hm0. rewrite (Hcf Hi0 Hm0). apply wait_of_next; lia. }
+    destruct code; [inversion H; subst; intros pr w2 Hy; discriminate | |]; eapply Hfail; eauto.
+Qed.
+
+Lemma mon_waits pol m p tr s prev w :
+  run Fixed pol (init m p) tr = Some s -> mon s = MWait prev w ->
+  0 <= prev < p_max pol
+  /\ (prev = 0 -> w = p_init pol)
+  /\ (0 < prev -> w <= p_maxw pol)
+  /\ (0 <= p_init pol -> 0 <= p_maxw pol -> w = wait_of pol prev).
+Proof.
+  assert (G : forall tr s0 s1, run Fixed pol s0 tr = Some s1 -> mon_inv pol s0 -> mon_inv pol s1).
+  { induction tr0 as [|e tr0 IH]; cbn [run]; intros s0 s1 H Hm.
+    - inversion H; subst; auto.
+    - destruct (step Fixed pol s0 e) as [[s2 o]|] eqn:Hs; [|discriminate]. eauto using mon_inv_step. }
+  intros H Hw. eapply (G tr (init m p) s H); eauto. intros pr w2 Hx. discriminate.
+Qed.
+
+(** ** the monitor is told about every close, in order (when the user leaves reopening to it) *)
+
+Definition pending (s : st) : list Z := match mon_sig s with Some c => [c] | None => [] end.
+
+Definition told_inv (s : st) : Prop :=
+  mon_set s = true -> mon s <> MDone ->
+  handled s ++ pending s = closes s
+  /\ (is_open s = true -> mon_sig s = None)
+  /\ (forall prev w, mon s = MWait prev w -> is_open s = false /\ mon_sig s = None).
+
+Lemma told_step pol s e s' o :
+  polite s e = true -> step Fixed pol s e = Some (s', o) -> told_inv s -> told_inv s'.
+Proof.
+  intros Hpol H Ht.
+  pose proof (mon_unchanged _ _ _ _ _ H) as Hu.
+  assert (Hclosed : forall c, is_open s = true -> told_inv (closed_state Fixed c s)).
+  { intros c Ho Hms Hmd. cbn [closed_state mon_set mon] in *. destruct (Ht Hms Hmd) as (He & Hn & Hw).
+    unfold pending. cbn [closed_state handled closes mon_sig is_open].
+    rewrite (Hn Ho), Hms. unfold pending in He. rewrite (Hn Ho) in He. rewrite app_nil_r in He.
+    split; [now rewrite He|]. split; [discriminate|].
+    intros prev w Hx. destruct (Hw _ _ Hx) as [Hc _]. congruence. }
+  assert (Hset : forall s0 g l, told_inv s0 -> told_inv (set_loop s0 g l)).
+  { intros s0 g l Hx. exact Hx. }
+  destruct e; cbn [step] in H.
+  - (* user Open: polite *)
+    destruct (open_step Fixed a s) as [[s1 code]|] eqn:Ho; [|discriminate]. inversion H; subst.
+    apply open_step_cases in Ho. destruct Ho as [(_&_&->&_)|[(Hc&->&_)|(_&_&_&->&_)]]; auto.
+    intros Hms Hmd. cbn [opened mon_set mon] in *. destruct (Ht Hms Hmd) as (He & Hn & Hw).
+    cbn [polite] in Hpol. rewrite Hms in Hpol. cbn in Hpol.
+    destruct (mon s) eqn:Em; try discriminate; [|contradiction].
+    destruct (mon_sig s) eqn:Es; [discriminate|].
+    unfold pending in *. cbn [opened handled closes mon_sig is_open mon]. rewrite Es in *.
+    split; [auto|]. split; [auto|]. intros pr w2 Hx. cbn [opened mon] in Hx. congruence.
+  - destruct (close_step Fixed None 0 a s) as [[[s1 code] p]|] eqn:Hc; [|discriminate]. inversion H; subst.
+    apply close_step_cases in Hc.
+    destruct Hc as [(_&->&_)|(Ho&_&_&[(_&->&_)|(_&->&_)])]; auto.
+  - inversion H; subst. auto.
+  - destruct (loops s g) as [|buf| | |]; try discriminate.
+    destruct (drain_buf (buf ++ b)) as [[ex rest] [| |]]; inversion H; subst; auto.
+  - destruct (loops s g) as [|buf| | |]; try discriminate. inversion H; subst. auto.
+  - destruct (loops s g) as [|buf|c|c l|] eqn:Hl; try discriminate.
+    + destruct (a =? 0); [|discriminate]. destruct (sig s (sigidx Fixed g)); inversion H; subst; auto.
+    + destruct (close_step Fixed (Some g) c a s) as [[[s1 code] p]|] eqn:Hc; [|discriminate]. inversion H; subst.
+      apply close_step_cases in Hc.
+      destruct Hc as [(_&->&_)|(Ho&_&_&[(_&->&_)|(_&->&_)])]; auto.
+  - (* the runner receives *)
+    destruct (mon_set s) eqn:Hms; [|discriminate].
+    destruct (mon s) eqn:Em; try discriminate. destruct (mon_sig s) as [c|] eqn:Es; [|discriminate].
+    assert (Hmd : mon s <> MDone) by (rewrite Em; discriminate).
+    destruct (Ht Hms Hmd) as (He & Hn & Hw).
+    assert (Hc : is_open s = false).
+    { destruct (is_open s) eqn:Ho; auto. specialize (Hn eq_refl). congruence. }
+    unfold pending in He. rewrite Es in He.
+    destruct (c =? 0).
+    + inversion H; subst. intros _ Hx. cbn [set_mon mon] in Hx. contradiction.
+    + destruct (on_closed_uncleanly pol) as [reopen w]. inversion H; subst.
+      intros _ Hx. unfold pending. cbn [set_mon mon mon_sig handled closes is_open] in *.
+      rewrite app_nil_r. repeat split; auto.
+  - (* the runner tries to reopen *)
+    destruct (mon_set s) eqn:Hms; [|discriminate].
+    destruct (mon s) as [|prev w|] eqn:Em; try discriminate.
+    assert (Hmd : mon s <> MDone) by (rewrite Em; discriminate).
+    destruct (Ht Hms Hmd) as (He & Hn & Hw).
+    destruct (Hw _ _ Em) as [Hc Hs0].
+    destruct (open_step Fixed a s) as [[s1 code]|] eqn:Ho; [|discriminate].
+    apply open_step_cases in Ho.
+    destruct Ho as [(Hx&_)|[(_&->&->&_)|(_&_&_&->&->)]]; [congruence| |].
+    + inversion H; subst. intros _ _. unfold pending in *.
+      cbn [set_mon opened mon mon_sig handled closes is_open]. rewrite Hs0 in *.
+      split; [auto|]. split; [auto|]. intros pr w2 Hx. discriminate.
+    + cbn in H. destruct (on_reopen_failed pol (prev + 1) w) as [reopen w']. inversion H; subst.
+      intros _ Hx. unfold pending in *. cbn [set_mon mon mon_sig handled closes is_open] in *.
+      repeat split; auto.
+Qed.
+
+Lemma step_mon_set pol s e s' o : step Fixed pol s e = Some (s', o) -> mon_set s' = mon_set s.
+Proof.
+  intros Hs. pose proof (mon_unchanged _ _ _ _ _ Hs) as Hu.
+  destruct e; try (destruct Hu as [_ Hu]; exact Hu); cbn [step] in Hs.
+  - destruct (mon_set s) eqn:Hms; [|discriminate]. destruct (mon s); try discriminate.
+    destruct (mon_sig s) as [c|]; [|discriminate].
+    destruct (c =? 0); [inversion Hs; subst; cbn; auto|].
+    destruct (on_closed_uncleanly pol). inversion Hs; subst. cbn; auto.
+  - destruct (mon_set s) eqn:Hms; [|discriminate]. destruct (mon s) as [|prev w|]; try discriminate.
+    destruct (open_step Fixed a s) as [[s3 code]|] eqn:Ho; [|discriminate].
+    assert (mon_set s3 = true).
+    { apply open_step_cases in Ho. destruct Ho as [(_&_&->&_)|[(_&->&_)|(_&_&_&->&_)]]; auto. }
+    destruct code; [inversion Hs; subst; cbn; auto| |];
+      destruct (on_reopen_failed pol (prev + 1) w); inversion Hs; subst; cbn; auto.
+Qed.
+
+Lemma told_every_close pol p tr s :
+  run_polite Fixed pol (init true p) tr = Some s ->
+  mon s <> MDone ->
+  handled s ++ pending s = closes s.
+Proof.
+  assert (G : forall tr s0 s1, run_polite Fixed pol s0 tr = Some s1 -> told_inv s0 -> told_inv s1).
+  { induction tr0 as [|e tr0 IH]; cbn [run_polite]; intros s0 s1 H Ht.
+    - inversion H; subst; auto.
+    - destruct (polite s0 e) eqn:Hp; [|discriminate].
+      destruct (step Fixed pol s0 e) as [[s2 o]|] eqn:Hs; [|discriminate]. eauto using told_step. }
+  assert (G2 : forall tr s0 s1, run_polite Fixed pol s0 tr = Some s1 -> mon_set s1 = mon_set s0).
+  { induction tr0 as [|e tr0 IH]; cbn [run_polite]; intros s0 s1 H0.
+    - inversion H0; subst; auto.
+    - destruct (polite s0 e); [|discriminate].
+      destruct (step Fixed pol s0 e) as [[s2 o]|] eqn:Hs; [|discriminate].
+      rewrite (IH _ _ H0). eapply step_mon_set; eauto. }
+  intros H Hmd.
+  assert (Hms : mon_set s = true) by (rewrite (G2 _ _ _ H); reflexivity).
+  assert (Hi : told_inv (init true p)).
+  { intros _ _. cbn. repeat split; auto; intros; discriminate. }
+  destruct (G _ _ _ H Hi Hms Hmd) as (He & _). exact He.
+Qed.
+
+Lemma told_inv_reachable pol p tr s :
+  run_polite Fixed pol (init true p) tr = Some s -> told_inv s /\ mon_set s = true.
+Proof.
+  assert (G : forall tr s0 s1, run_polite Fixed pol s0 tr = Some s1 ->
+             told_inv s0 -> told_inv s1 /\ mon_set s1 = mon_set s0).
+  { induction tr0 as [|e tr0 IH]; cbn [run_polite]; intros s0 s1 H Ht.
+    - inversion H; subst; auto.
+    - destruct (polite s0 e) eqn:Hp; [|discriminate].
+      destruct (step Fixed pol s0 e) as [[s2 o]|] eqn:Hs; [|discriminate].
+      destruct (IH _ _ H (told_step _ _ _ _ _ Hp Hs Ht)) as [H1 H2]. split; auto.
+      rewrite H2. eapply step_mon_set; eauto. }
+  intros H. apply (G _ _ _ H). intros _ _. cbn. repeat split; auto; intros; discriminate.
+Qed.
+
+(** ** after an unclean close the monitor can reopen, and everything is as after a first Open *)
+Lemma recoverable pol p tr s c :
+  run_polite Fixed pol (init true p) tr = Some s ->
+  mon s = MIdle -> mon_sig s = Some c -> c <> 0 -> 0 < p_max pol ->
+  exists s1 s2,
+    step Fixed pol s EMonRecv = Some (s1, [2; c; 1; p_init pol])
+    /\ step Fixed pol s1 (EMon (if under s then 3 else 1)) = Some (s2, [4; 0; 0; 0; 0])
+    /\ is_open s2 = true /\ gen s2 = S (gen s) /\ loops s2 (gen s2) = LReading []
+    /\ pub s2 (gen s2) = [] /\ mon s2 = MIdle /\ mon_sig s2 = None.
+Proof.
+  intros Hrun Hm Hsig Hc Hmax.
+  destruct (told_inv_reachable _ _ _ _ Hrun) as [Ht Hms].
+  assert (Hmd : mon s <> MDone) by (rewrite Hm; discriminate).
+  destruct (Ht Hms Hmd) as (_ & Hn & _).
+  assert (Hcl : is_open s = false).
+  { destruct (is_open s) eqn:Ho; auto. specialize (Hn eq_refl). congruence. }
+  apply Z.eqb_neq in Hc. apply Z.ltb_lt in Hmax.
+  eexists. eexists. split.
+  { cbn [step]. rewrite Hms, Hm, Hsig, Hc. unfold on_closed_uncleanly. rewrite Hmax. reflexivity. }
+  cbn [step set_mon mon_set mon]. rewrite Hms. unfold open_step. cbn [set_mon is_open under]. rewrite Hcl.
+  destruct (under s); cbn; repeat split; auto; apply upd_same.
+Qed.
+
+(** ** what the tree as found does (Pinned), and the two defects left in place *)
+
+Definition pol0 : policy := {| p_max := 3; p_init := 5; p_maxw := 1 |}.
+
+(** a failure, a reopen, a second failure: the second read loop takes the token the first close
+    left behind for a requested close and leaves silently *)
+Definition tr_silent : list ev :=
+  [EOpen 1; EReadErr 1 (ErrRaw 7); ELoop 1 0; ELoop 1 1; EOpen 1; EReadErr 2 (ErrRaw 8); ELoop 2 0].
+
+Lemma pinned_silent_second_failure :
+  exists s, run Pinned pol0 (init false false) tr_silent = Some s
+    /\ is_open s = true /\ loops s (gen s) = LExited /\ pub s (gen s) = [] /\ closes s = [1070].
+Proof. eexists. split; [vm_compute; reflexivity|]. cbn. auto. Qed.
+
+(** a failure, a reopen, then Close(): the send on the full close signal blocks for ever, whatever
+    the underlying transport would answer *)
+Definition tr_deadlock : list ev := [EOpen 1; EReadErr 1 (ErrRaw 7); ELoop 1 0; ELoop 1 1; EOpen 1].
+
+Lemma pinned_close_deadlock :
+  exists s, run Pinned pol0 (init false false) tr_deadlock = Some s
+    /\ is_open s = true /\ forall a, step Pinned pol0 s (EClose a) = None.
+Proof.
+  eexists. split; [vm_compute; reflexivity|]. split; [reflexivity|]. intros a. reflexivity.
+Qed.
+
+(** the same two histories on the repaired code *)
+Lemma fixed_second_failure_reported :
+  exists s, run Fixed pol0 (init false false) (tr_silent ++ [ELoop 2 1]) = Some s
+    /\ is_open s = false /\ pub s 2%nat = [1080] /\ closes s = [1070; 1080].
+Proof. eexists. split; [vm_compute; reflexivity|]. cbn. auto. Qed.
+
+Lemma fixed_close_after_reopen :
+  exists s s', run Fixed pol0 (init false false) tr_deadlock = Some s
+    /\ step Fixed pol0 s (EClose 1) = Some (s', [0; 2; 0]) /\ is_open s' = false.
+Proof. eexists. eexists. split; [vm_compute; reflexivity|]. split; reflexivity. Qed.
+
+(** F13: the first wait is InitialWait even when that is above MaxWait *)
+Lemma first_wait_uncapped :
+  exists pol tr s w, run Fixed pol (init true false) tr = Some s
+    /\ mon s = MWait 0 w /\ p_maxw pol < w.
+Proof.
+  exists pol0, [EOpen 1; EReadErr 1 (ErrRaw 7); ELoop 1 0; ELoop 1 1; EMonRecv].
+  eexists. exists 5. split; [vm_compute; reflexivity|]. split; [reflexivity|]. cbn. lia.
+Qed.
+
+(** the stream ends inside a frame (4 header bytes announcing 9, one body byte, then io.EOF; or
+    two header bytes, then an END_OF_FILE exception): no Close() anywhere, yet the cause
+    published is nil and the monitor is told "closed cleanly" and stops *)
+Definition tr_cut_body : list ev :=
+  [EOpen 1; EFeed 1 [0; 0; 0; 9; 0]; EReadErr 1 EofRaw; ELoop 1 0; ELoop 1 1; EMonRecv].
+Definition tr_cut_header : list ev :=
+  [EOpen 1; EFeed 1 [0; 0]; EReadErr 1 EofTte; ELoop 1 0; ELoop 1 1; EMonRecv].
+
+Lemma eof_inside_frame_clean :
+  (exists s, run Fixed pol0 (init true false) tr_cut_body = Some s
+     /\ pub s 1%nat = [0] /\ handled s = [0] /\ mon s = MDone /\ is_open s = false)
+  /\ (exists s, run Fixed pol0 (init true false) tr_cut_header = Some s
+     /\ pub s 1%nat = [0] /\ handled s = [0] /\ mon s = MDone /\ is_open s = false).
+Proof. split; eexists; (split; [vm_compute; reflexivity|]); cbn; auto. Qed.
+
+(** the chain of facts behind "nil only for Close() or end of file" *)
+Lemma nil_cause_chain :
+  (forall n k, rkind_wf k -> (classify n k = 0 <-> k = EofTte \/ (k = EofRaw /\ 4 <= n)))
+  /\ (forall pol m p tr s e s' o g,
+        run Fixed pol (init m p) tr = Some s -> step Fixed pol s e = Some (s', o) -> pub s' g <> pub s g ->
+        g = gen s /\ is_open s = true /\ is_open s' = false /\
+        exists c, pub s' g = pub s g ++ [c] /\
+          ((e = EClose 1 /\ c = 0) \/ (exists l, e = ELoop g 1 /\ loops s g = LAtClose c l)))
+  /\ (forall pol m p tr s g c l,
+        run Fixed pol (init m p) tr = Some s -> loops s g = LAtClose c l -> (c = 0 <-> l = 2))
+  /\ (forall pol s e s' o g,
+        step Fixed pol s e = Some (s', o) -> loops s' g = LSawErr 0 ->
+        loops s g = LSawErr 0 \/
+        exists buf k, e = EReadErr g k /\ loops s g = LReading buf /\ classify (zlen buf) k = 0).
+Proof.
+  split; [exact classify_nil|]. split; [|split].
+  - intros pol m p tr s e s' o g Hrun. apply publish_provenance_inv. eapply reachable_inv; eauto.
+  - intros pol m p tr s g c l Hrun. apply (loop_causes_reachable _ _ _ _ _ Hrun).
+  - exact saw_nil_provenance.
+Qed.
